@@ -35,6 +35,10 @@ MULTI_OK = set(POSES + ['Quaternion', 'UnitQuaternion', 'Twist2', 'Twist3', 'Plu
 OPS = {'mul': operator.mul, 'truediv': operator.truediv, 'add': operator.add, 'sub': operator.sub, 'pow': operator.pow,
        'matmul': operator.matmul, 'eq': operator.eq, 'ne': operator.ne, 'xor': operator.xor, 'or': operator.or_}
 ARITH = ['mul', 'truediv', 'add', 'sub', 'pow', 'matmul']
+# augmented forms: `a op= b` is the same operator; it must answer exactly as `a op b` does (same class / same refusal)
+AUG = {'imul': 'mul', 'itruediv': 'truediv', 'iadd': 'add', 'isub': 'sub', 'ipow': 'pow', 'imatmul': 'matmul'}
+OPS.update({'imul': operator.imul, 'itruediv': operator.itruediv, 'iadd': operator.iadd, 'isub': operator.isub, 'ipow': operator.ipow,
+            'imatmul': operator.imatmul})
 
 
 def S():
@@ -84,6 +88,8 @@ def expected(L, R, op):
             return ('class', 'DualQuaternion')
         if c == 'UnitDualQuaternion' and op == 'mul':
             return ('class', 'UnitDualQuaternion')
+        if op in ('eq', 'ne'):
+            return ('bool',)        # statement: == / != between operands of one class return booleans without raising
         return ('unjudged', 'same-class operator the documentation does not mention')
     if op not in ARITH:
         return ('unjudged', 'comparison between different classes')
@@ -270,10 +276,11 @@ def is_array_result(v):
 def run_cell(ctx, p):
     L, R, op = p['L'], p['R'], p['op']
     exp = tuple(p['exp'])
+    aug = op in AUG
     del _tap[:]
     try:
         cast = {'int': int, 'float': float, 'float64': np.float64, 'int64': np.int64, 'list': lambda v: [float(x) for x in v],
-                'tuple': lambda v: tuple(float(x) for x in v)}
+                'tuple': lambda v: tuple(float(x) for x in v), 'ndarray': lambda v: np.asarray(v, dtype=np.float64)}
         a = build(L, p['a']) if L in CLASSES else cast[L](p['a'])
         b = build(R, p['b']) if R in CLASSES else cast[R](p['b'])
     except Exception as e:
@@ -296,6 +303,7 @@ def run_cell(ctx, p):
         ctx.ood('table')
         ctx.cell('recorded', L, R, op, out)
         return
+    before = snapshot_data(a) if aug else None
     try:
         v = OPS[op](a, b)
         raised = None
@@ -306,6 +314,11 @@ def run_cell(ctx, p):
         ok = raised is not None
         ctx.judge('table', ok, dict(sig, kind='returned_instead_of_raising', got=describe(v)),
                   lambda: '%s must raise but returned %s = %s   [dispatch: %s]' % (what(), describe(v), core.short(getattr(v, 'data', v), 200), '; '.join(_tap)))
+        if aug and before is not None:
+            now = snapshot_data(a)
+            same_ = now is not None and len(now) == len(before) and all(isinstance(x, np.ndarray) and x.shape == y.shape and np.array_equal(x, y) for x, y in zip(now, before))
+            ctx.judge('table', same_, dict(sig, kind='left_operand_changed_by_refused_operation'),
+                      lambda: '%s is refused / undefined, yet the left operand now holds %s (before: %s)' % (what(), core.short(now, 200), core.short(before, 200)))
     elif raised is not None:
         ctx.bad('table', dict(sig, kind='documented_pair_raised', exc=type(raised).__name__),
                 '%s is documented (%s) but raised %r   [dispatch: %s]' % (what(), exp, raised, '; '.join(_tap)))
@@ -405,6 +418,40 @@ def run(ctx):
                         else:
                             p = dict(L=sname, R=c, op=op, a=s, b=obj, exp=list(e))
                         drive(RUNNERS, ctx, 'cell', p)
+    # augmented operators: same table as the binary operator
+    for L in CLASSES:
+        for R in CLASSES:
+            for aop, bop in AUG.items():
+                exp = expected(L, R, bop)
+                for ml in ((False, True) if L in MULTI_OK else (False,)):
+                    for mr in ((False, True) if R in MULTI_OK else (False,)):
+                        i += 1
+                        if not ctx.mine(i):
+                            continue
+                        for _ in range(reps):
+                            drive(RUNNERS, ctx, 'cell', dict(L=L, R=R, op=aop, a=operand(rng, L, ml), b=operand(rng, R, mr), exp=list(exp)))
+    for c in CLASSES:
+        for aop, bop in AUG.items():
+            exp = expected_scalar(c, bop, 'R')
+            for ml in ((False, True) if c in MULTI_OK else (False,)):
+                for s_ in (2, 2.5):
+                    i += 1
+                    if not ctx.mine(i):
+                        continue
+                    e = ('unjudged', 'non-integer power') if bop == 'pow' and not isinstance(s_, int) else exp
+                    drive(RUNNERS, ctx, 'cell', dict(L=c, R=type(s_).__name__, op=aop, a=operand(rng, c, ml), b=s_, exp=list(e)))
+    # a bare matrix on the right of a quaternion or twist is defined nowhere ("matrices with quaternions or twists"): must raise
+    for c in ('Quaternion', 'UnitQuaternion', 'Twist2', 'Twist3'):
+        for op in ARITH + list(AUG):
+            for shape in ((3, 3), (4, 4), (2, 2), (6, 6)):
+                for ml in (False, True):
+                    i += 1
+                    if not ctx.mine(i):
+                        continue
+                    if c == 'UnitQuaternion' and shape[0] == 3 and op in ('mul', 'imul'):
+                        continue            # documented: a 3xN array on the right is a set of points to rotate
+                    M = np.eye(shape[0]) + 0.1 * rng.normal(size=shape)
+                    drive(RUNNERS, ctx, 'cell', dict(L=c, R='ndarray', op=op, a=operand(rng, c, ml), b=M, exp=['raise']))
     # a plain list / tuple on the LEFT of a library object is documented for no class: must raise
     for c in CLASSES:
         for op in ARITH:
